@@ -254,6 +254,103 @@ func c19SrvPeerEnt(p *mrt.Peer) string {
 	return fmt.Sprintf("%d %s %s %d", p.Type, c19SrvHex(p.BgpId.AsSlice()), c19SrvHex(p.IpAddress.AsSlice()), p.AS)
 }
 
+// ribout (the per-prefix cache that de-duplicates regenerated Route Monitoring) over histories
+// with several sources per prefix: announce / withdraw / identical re-announce / replace by the
+// source at every position of the cached list. A station that applies exactly the paths for
+// which update() says "send" must hold, after EVERY step, what a station that is told everything
+// holds; and an announcement the station already holds is not reported again.
+func c19RiboutHistories(o *vOut, r *vRand) {
+	nSrc := 2 + r.intn(3)
+	var srcs []*table.PeerInfo
+	for i := 0; i < nSrc; i++ {
+		srcs = append(srcs, &table.PeerInfo{AS: uint32(65100 + i), ID: netip.AddrFrom4([4]byte{9, 9, 9, byte(i + 1)}), Address: netip.AddrFrom4([4]byte{10, 9, 0, byte(i + 1)})})
+	}
+	nPfx := 1 + r.intn(2)
+	var nlris []bgp.NLRI
+	for i := 0; i < nPfx; i++ {
+		n, _ := bgp.NewIPAddrPrefix(netip.PrefixFrom(netip.AddrFrom4([4]byte{10, 77, byte(i), 0}), 24))
+		nlris = append(nlris, n)
+	}
+	mk := func(pi, si, variant int) *table.Path {
+		nh, _ := bgp.NewPathAttributeNextHop(netip.AddrFrom4([4]byte{192, 0, 2, 1}))
+		attrs := []bgp.PathAttributeInterface{bgp.NewPathAttributeOrigin(0),
+			bgp.NewPathAttributeAsPath([]bgp.AsPathParamInterface{bgp.NewAs4PathParam(2, []uint32{srcs[si].AS, uint32(64600 + variant)})}), nh}
+		return table.NewPath(bgp.RF_IPv4_UC, srcs[si], bgp.PathNLRI{NLRI: nlris[pi]}, false, attrs, time.Unix(1700000000, 0), false)
+	}
+	rb := newribout()
+	type cell struct{ pi, si int }
+	truth, station := map[cell]*table.Path{}, map[cell]*table.Path{}
+	last := map[cell]*table.Path{} // the path a source announced last (for the identical re-announcement)
+	var history []string
+	same := func(a, b *table.Path) bool { return (a == nil && b == nil) || (a != nil && b != nil && a.Equal(b)) }
+	pendingReannounce := []cell{}
+	for step := 0; step < 40+r.intn(40); step++ {
+		c := cell{r.intn(nPfx), r.intn(nSrc)}
+		op := r.intn(10)
+		if len(pendingReannounce) > 0 && r.chance(70) { // right after a withdrawal: the identical path again
+			c, pendingReannounce = pendingReannounce[0], pendingReannounce[1:]
+			op = 9
+		}
+		var p *table.Path
+		switch {
+		case op < 4: // announce a (possibly new) variant
+			p = mk(c.pi, c.si, r.intn(3))
+			last[c] = p
+			history = append(history, fmt.Sprintf("announce p%d s%d %s", c.pi, c.si, p.GetAsString()))
+		case op < 8: // withdraw
+			base := last[c]
+			if base == nil {
+				base = mk(c.pi, c.si, 0)
+			}
+			p = base.Clone(true)
+			history = append(history, fmt.Sprintf("withdraw p%d s%d", c.pi, c.si))
+			if truth[c] != nil {
+				pendingReannounce = append(pendingReannounce, c)
+			}
+		default: // identical re-announcement of what this source announced last
+			if last[c] == nil {
+				continue
+			}
+			p = mk(c.pi, c.si, int(last[c].GetAsList()[1])-64600)
+			history = append(history, fmt.Sprintf("re-announce p%d s%d %s", c.pi, c.si, p.GetAsString()))
+		}
+		if p.IsWithdraw {
+			delete(truth, c)
+		} else {
+			truth[c] = p
+		}
+		send := rb.update(p)
+		if send {
+			if !p.IsWithdraw && same(station[c], p) {
+				o.fail("bmp-ribout-reports-twice", map[string]any{"history": history})
+				return
+			}
+			if p.IsWithdraw {
+				delete(station, c)
+			} else {
+				station[c] = p
+			}
+		}
+		for pi := 0; pi < nPfx; pi++ {
+			for si := 0; si < nSrc; si++ {
+				k := cell{pi, si}
+				if !same(truth[k], station[k]) {
+					d := func(x *table.Path) string {
+						if x == nil {
+							return "-"
+						}
+						return x.GetAsString()
+					}
+					o.fail("bmp-session-view-differs", map[string]any{"where": "ribout history", "history": history, "prefix": pi, "source": si,
+						"monitored_rib": d(truth[k]), "station_view": d(station[k])})
+					return
+				}
+			}
+		}
+	}
+	o.stat("ribout_history_steps", len(history))
+}
+
 func c19StartServer(t *testing.T) *BgpServer {
 	s := NewBgpServer()
 	go s.Serve()
@@ -1001,6 +1098,9 @@ func c19Round(t *testing.T, o *vOut, r *vRand, round int) {
 		}
 		var msgs []*bmp.BMPMessage
 		var exps []exp
+		for k := 0; k < 4; k++ {
+			c19RiboutHistories(o, r)
+		}
 		rb := newribout()
 		for pass := 0; pass < 2; pass++ {
 			for _, wnt := range want {
